@@ -237,13 +237,18 @@ func gen(rt *rapid.T) (trial.Trial, bool) {
 	if (rapid.IntRange(0, 7).Draw(rt, "crowd") == 0 && forceMode == "") || forceMode == "crowd" {
 		n := rapid.IntRange(40, 160).Draw(rt, "crowdsize")
 		tr.Reps = rapid.SampledFrom([]int{1, 3}).Draw(rt, "crowdreps")
+		// half of the crowds share one or two processors: every goroutine waits a long time for its next turn, and
+		// whatever measures wall-clock time inside a call sees it
+		if rapid.Bool().Draw(rt, "fewprocs") {
+			tr.GOMAXPROCS = rapid.SampledFrom([]int{1, 1, 2}).Draw(rt, "crowdprocs")
+		}
 		tr.Start = "barrier"
 		tr.Goroutines = nil
 		for g := 0; g < n; g++ {
 			k := rapid.IntRange(1, 3).Draw(rt, "crowdops")
 			var ops []trial.Op
 			for len(ops) < k {
-				ops = append(ops, genOp(rt, []string{"TransformBig", "TransformBig", "LineariseImage", "EncodeImage", "ConvertImage", "TransformTyped", "TransformTyped", "TileTransform", "TileTransform", "TransformContent", "TransformContent"}))
+				ops = append(ops, genOp(rt, []string{"TransformBig", "TransformBig", "LineariseImage", "EncodeImage", "ConvertImage", "TransformTyped", "TransformTyped", "TileTransform", "TileTransform", "TransformContent", "TransformContent", "LoadBig"}))
 			}
 			tr.Goroutines = append(tr.Goroutines, ops)
 		}
@@ -292,7 +297,7 @@ func TestC11(t *testing.T) {
 		fmt.Println("REPLAY case passed (5 fresh processes)")
 		return
 	}
-	ev.Rule("generated trial descriptions: 2..64 goroutines, GOMAXPROCS 1..16, per goroutine 1-6 operations from {From16Bit/To16Bit of every space (lazily built tables), 8-bit decode/encode, LineariseColor, EncodeColor, Linearise/EncodeImage with parallelism 1..8 on per-goroutine destinations and shared read-only sources (RGBA64, NRGBA, paletted, Gray16, CMYK, YCbCr), transforms into per-goroutine tiles of one shared canvas, transforms of 128x40 structured sources (flat rows, flat columns, one colour, checkers, letterbox, mostly transparent; RGBA64/NRGBA64/NRGBA/RGBA) with 2..16 workers, ConvertImageTo*, the four loaders on shared byte slices (well-formed files, and files rejected early or late with the error text compared), the ICC profile reader and Description on 80 profiles with distinct headers and descriptions (with rejected headers in between), chromatic adaptation / Lab, XYZ transforms}, start shape one barrier / two waves / per-goroutine Gosched counts; an eighth are load storms (16..64 goroutines each loading 3-6 of 240 files with 80 distinct profiles, repeatedly, most of them moving on through the family by 1 or 7 files per repetition); an eighth of the trials are crowds of 40..160 goroutines running image transforms of a 96x64 image with 2..16 workers each; three quarters of the trials put the FIRST call to the same lazily built table on >= 2 goroutines behind the same barrier. Each trial runs in a fresh process built with -race from the current tree. Oracle: race detector (exit 66) + every operation's result digest equals the digest from a sequential process running the same operation lists with every image transform at parallelism 1. non-trivial = distinct trial with a first-use collision or an image transform with parallelism > 1")
+	ev.Rule("generated trial descriptions: 2..64 goroutines, GOMAXPROCS 1..16, per goroutine 1-6 operations from {From16Bit/To16Bit of every space (lazily built tables), 8-bit decode/encode, LineariseColor, EncodeColor, Linearise/EncodeImage with parallelism 1..8 on per-goroutine destinations and shared read-only sources (RGBA64, NRGBA, paletted, Gray16, CMYK, YCbCr), transforms into per-goroutine tiles of one shared canvas, transforms of 128x40 structured sources (flat rows, flat columns, one colour, checkers, letterbox, mostly transparent; RGBA64/NRGBA64/NRGBA/RGBA) with 2..16 workers, ConvertImageTo*, the four loaders on shared byte slices (well-formed files, and files rejected early or late with the error text compared), the ICC profile reader and Description on 80 profiles with distinct headers and descriptions (with rejected headers in between), chromatic adaptation / Lab, XYZ transforms}, start shape one barrier / two waves / per-goroutine Gosched counts; an eighth are load storms (16..64 goroutines each loading 3-6 of 240 files with 80 distinct profiles, repeatedly, most of them moving on through the family by 1 or 7 files per repetition); an eighth of the trials are crowds of 40..160 goroutines running image transforms of a 96x64 image with 2..16 workers each and loads of a PNG with a 384 KiB profile, half of them on one or two processors; one trial per lazily initialised operation and space puts its first use on 2..8 goroutines at once; three quarters of the generated trials put the FIRST call to the same lazily built table on >= 2 goroutines behind the same barrier. Each trial runs in a fresh process built with -race from the current tree. Oracle: race detector (exit 66) + every operation's result digest equals the digest from a sequential process running the same operation lists with every image transform at parallelism 1. non-trivial = distinct trial with a first-use collision or an image transform with parallelism > 1")
 	ev.Assume("the Go race detector's happens-before analysis; schedules are explored only as far as the Go scheduler varies them")
 	// phase 1: rapid only draws the trial descriptions (cheap); phase 2 executes them 8 at a time
 	type item struct {
@@ -306,6 +311,23 @@ func TestC11(t *testing.T) {
 		tr, nt := gen(rt)
 		items = append(items, item{tr, nt})
 	})
+	// every lazily initialised operation of every space meets its first use on several goroutines at once, once per run
+	for _, name := range trial.Lazy {
+		for space := 0; space < 4; space++ {
+			if (name == "Adapt" || name == "Primaries") && space > 0 {
+				continue
+			}
+			var tr trial.Trial
+			n := 2 + (space+len(name))%7
+			tr.GOMAXPROCS = []int{16, 4, 2, 8}[(space+len(name))%4]
+			tr.Start = "barrier"
+			tr.Reps = 1
+			for g := 0; g < n; g++ {
+				tr.Goroutines = append(tr.Goroutines, []trial.Op{{Name: name, Space: space, Arg: (g*257 + len(name)*31) % 65536}, {Name: name, Space: space, Arg: g}})
+			}
+			items = append(items, item{tr, true})
+		}
+	}
 	for _, mode := range []string{"storm", "crowd", "hammer"} {
 		forceMode = mode
 		ev.RapidChecks(ev.Pick(3, 60))
